@@ -2,6 +2,13 @@
 """writes MANIFEST.json from the table below (keeps it valid and in one place)"""
 import json, os
 CHECKS = {
+ 'C02': dict(technique='taint + interval range checker with the decoder\'s option-length table as bound (R-RANGE), declared-length cap rule (R-STREAM-CAP), parse-before-dispatch and reject-arm typestate (R-PARSE-GATE), library-wide stale-buffer-pointer typestate (R-FIXUP)',
+             text='Decides necessary structural conditions of memory safety on the receive surface: wire-derived indices/copy sizes into fixed-size objects proven in '
+                  'range (bounds taken from the decoder\'s own per-option table), CBOR-declared sizes compared with what is left, wire-derived shift counts bounded, '
+                  'declared lengths capped with the session closed on excess, rejection of every malformed-input condition before dispatch, no use of a PDU buffer '
+                  'pointer after a possible reallocation. Absence of all memory errors / UB for all inputs and histories, termination and continued service are '
+                  'not decided; persistent reader-state indices are declined.',
+             design='6 C02'),
  'C14': dict(technique='case-label dataflow of option numbers into the outer/inner PDU roles against the RFC 8613 Figure 5 table, tested-result gating of the decrypt call (R-OSC-SPLIT)',
              text='Decides two clauses of C14: the outer/inner option split (no class E option reaches the unprotected PDU; unnamed options go inner) and that no '
                   'message is accepted unless cose_encrypt0_decrypt returned > 0. Byte equality with an independent RFC 8613 implementation and the round trip '
